@@ -54,6 +54,7 @@ def main():
             shutil.rmtree(wt, ignore_errors=True)
             resf.write_text(json.dumps(res, indent=1, sort_keys=True))
     # the evidence / replays written by these runs describe mutated trees: restore evidence from git
-    sh(["git", "-C", str(V), "checkout", "--", "evidence"])
+    sh(["git", "-C", str(V), "checkout", "--", "evidence", "lean/UvModel/Generated"])
+    sh(["git", "-C", str(V), "clean", "-fdq", "lean/UvModel/Generated"])
 if __name__ == "__main__":
     main()
